@@ -20,6 +20,7 @@ META = {
     "trusted_base": ["SmallVec::insert_many / pop, ArrayVec::pop, Vec: into_iter/flat_map/collect preserve order", "rustc type checker (associated types)", "rustc MIR construction"],
     "assumptions": [],
 }
+META["technique"] = "static analysis: dominance / provenance / typestate rules over rustc MIR facts (rustc_private driver) + path-partitioned abstract interpretation in a linear-inequality domain (view-length balance; Fourier-Motzkin emptiness, no execution, no external solver)"
 META["explanation"] += " R13.6 in the batched container's push_into_* / filter_map functions (helpers inlined, combinators desugared) the accumulated batch is only grown: nothing an adapter produced for a source batch is discarded."
 
 VEC_IMPL = "std::vec::Vec<eyeball_im::VectorDiff<T>>"
